@@ -16,6 +16,8 @@ import FluteModel.Drain
          op = w<k> (k counter bytes) | r<n> | f ;  obs = <k> | <hex> | - (Ok(0)) | WB | f
     ring bw <cenc> <cl|-> <kind> <L> <orig-hex> <chunk-hex>...     -> verdict (see `verdict`)
          the BlockWriter path over the chunks with the IDEAL decompressor (stream of L bytes, output <orig>)
+    ring dc <cenc> <chunk-hex>...   -> contract-ok     (the fields of `Drain.Contract`, measured by the harness on the
+                                                         real decompressors; the model ASSUMES them)
   panics -> PANIC, out of fuel -> HANG
 -/
 namespace Flute.Drv.Ring
@@ -187,6 +189,10 @@ def step (st : Option Ring) (args : List String) : Option Ring × String :=
     | some n => (st, seqRun (Ring.new n) 0 (ops.splitOn ",") [])
     | none => (st, "bad-op")
   | "bw" :: cenc :: cl :: kind :: len :: orig :: chunks => (st, bwOp cenc cl kind len orig chunks)
+  | "dc" :: cenc :: chunks =>
+    -- the contract of `Drain.Contract` is an ASSUMPTION of the model: the harness measures it on the real decoders
+    if (cenc = "zlib" ∨ cenc = "deflate" ∨ cenc = "gzip") ∧ ¬ chunks.isEmpty ∧ (chunks.all fun c => (unhex c).isSome ∧ c ≠ "-")
+    then (st, "contract-ok") else (st, "bad-op")
   | _ => (st, "bad-op")
 
 end Flute.Drv.Ring
